@@ -53,7 +53,9 @@ LEVEL_TEXT = ("Machine-checked Coq theorems over an executable model of group_by
               "state of the heap aggregate and groups() on any GroupBy object are the partition-and-fold / the distinct keys of the rows "
               "its frame holds at that moment, list- or generator-backed (nothing remembered from earlier calls, appended since or "
               "already consumed changes it), and the object afterwards holds the bookkeeping of that pass only; such sessions are run "
-              "on live objects and compared with the model step by step.")
+              "on live objects and compared with the model step by step. Columns: a name denotes the first column with exactly that "
+              "code-point sequence (no case folding / normalisation / trimming), and the result depends on the rows only through the "
+              "cells of the key columns and the requested columns (proved); frames with look-alike sibling columns are run and compared.")
 LEVEL_NOTE = ("Trusted: Coq kernel + vm_compute; the hand-written model; the harness's canonicalisation of Python values (bool/int/integral "
               "float collapse to one integer so that structural equality of model cells is Python's ==; other floats by bit pattern; NaN never "
               "generated). AVG is the exact rational in the theorems; the implementation's decimal.Decimal (28 significant digits, half-even) "
@@ -65,7 +67,9 @@ LEVEL_NOTE = ("Trusted: Coq kernel + vm_compute; the hand-written model; the har
               "Sessions: mutation of a frame is append() and the consumption of its generator only (rows are immutable tuples, the schema does "
               "not change); DataFrame.append refuses integers outside [-2^63, 2^64) (serialisation), so appended rows stay inside. Judged by the "
               "Python oracle only (the model has values, not references): the key list / request list passed in are overwritten after the call, "
-              "a marker row is appended to every returned frame and all returned frames are read again at the end.")
+              "a marker row is appended to every returned frame and all returned frames are read again at the end. Column names are text = "
+              "code points compared exactly in model and oracle (Python str equality); that the harness hands the implementation the same "
+              "strings it encodes for Coq is trusted; str / int subclass instances are encoded as their base values.")
 DESIGN_REF = "DESIGN.md section 8, C12"
 COQ_IMPORTS = "From Coq Require Import QArith.\nFrom Orso Require Import Model.C12."
 COQ_CHECKS = {"agg": "c12_check_agg", "groups": "c12_check_groups", "session": "c12_check_session",
@@ -81,7 +85,11 @@ RULE = ("frames of 0..15 rows with 1-2 key columns drawn from small pools of tex
         "its columns in another order, 22% generator-backed) and 4..10 steps drawn from: aggregate on an existing GroupBy object (45% the "
         "same request as last time on that object, 30% the same columns under other functions, through aggregate() or the wrappers), "
         "append a row (mostly to the frame of the object last used), a further GroupBy over the same or another frame, groups(), "
-        "materialise; plus every session group_by / aggregate / append one row / aggregate again / groups over a small alphabet")
+        "materialise; plus every session group_by / aggregate / append one row / aggregate again / groups over a small alphabet. "
+        "Column names: besides k1/k2/v/w, 200 cases + 60 sessions per run whose key / value / absent column names come from 18 families "
+        "of look-alike names (v/V, id/ID, sharp s / ss, Kelvin sign / k, long s, final sigma, dotless i, composed / decomposed accents, "
+        "Angstrom sign, ligature, micro sign / mu, leading / trailing blanks, empty name, prefixes, braces, non-ASCII digits), names "
+        "passed as str-subclass instances (25%), integer cells as int-subclass instances; plus the table of every ordered pair of each family")
 TRUSTED = [
     "C12 model (coq/Model/C12.v): dicts as insertion-ordered association lists; _map's generator as its two outputs (the yielded "
     "triples and the final _group_keys); labels as (function, column) pairs with a rendering function (proved injective)",
@@ -102,13 +110,28 @@ FUNCS = ["MIN", "MAX", "COUNT", "AVG", "SUM"]
 
 
 # ----------------------------------------------------------------------------- values
+class _IntSub(int):
+    """an int subclass instance (IntEnum members, numpy-free counters ... behave like this)"""
+
+
+class _StrSub(str):
+    """a str subclass instance used as a column name"""
+
+
 def _py(cell):
     """JSON cell -> Python value."""
     if isinstance(cell, list):
         if cell[0] == "f":
             return float.fromhex(cell[1])
+        if cell[0] == "I":
+            return _IntSub(cell[1])
         raise ValueError(cell)
     return cell
+
+
+def _nm_arg(case, n):
+    """a column name as it is handed to the implementation"""
+    return _StrSub(n) if case.get("strsub") else n
 
 
 def _canon(v):
@@ -120,7 +143,7 @@ def _canon(v):
     if isinstance(v, bool):
         return ("i", int(v))
     if isinstance(v, int):
-        return ("i", v)
+        return ("i", int(v))
     if isinstance(v, float):
         if v != v:
             raise ValueError("NaN is outside the harness")
@@ -139,8 +162,12 @@ def _json_cell(v):
     """Python value from the implementation -> JSON ocell (raw, not yet collapsed)."""
     import decimal
 
-    if v is None or isinstance(v, (bool, int, str)):
+    if v is None or isinstance(v, bool):
         return v
+    if isinstance(v, int):
+        return int(v)
+    if isinstance(v, str):
+        return str(v)
     if isinstance(v, float):
         return ["f", v.hex()]
     if isinstance(v, decimal.Decimal):
@@ -176,7 +203,7 @@ def _frame(case, rows, lazy):
 
 
 def _keys_arg(case):
-    ks = list(case["keys"])
+    ks = [_nm_arg(case, k) for k in case["keys"]]
     form = case.get("keyform", "list")
     if form == "str" and len(ks) == 1:
         return ks[0]
@@ -293,7 +320,7 @@ def observe(case):
     _keys_arg_cur[0] = _keys_arg(case)
     rows = case["rows"]
     lazy = bool(case["lazy"])
-    reqs = [tuple(r) for r in case["reqs"]]
+    reqs = [(f, _nm_arg(case, c)) for f, c in case["reqs"]]
     if case["op"] == "groups":
         call = lambda g: g.groups()
     else:
@@ -790,8 +817,39 @@ def nontrivial_key(case, obs):
     return repr((case["op"], case["rows"], case["keys"], case["reqs"], case["lazy"]))
 
 
+def _fold(n):
+    import unicodedata
+
+    return unicodedata.normalize("NFKC", unicodedata.normalize("NFKC", n).casefold()).strip()
+
+
+def _name_labels(names, asked):
+    if len({_fold(n) for n in names}) < len(set(names)):
+        yield "names:look-alike-sibling-columns"
+    have = set(names)
+    folded = {_fold(n) for n in names}
+    if any(a not in have and a != "*" and _fold(a) in folded for a in asked):
+        yield "names:absent-look-alike-requested"
+    if any(ord(ch) > 127 for n in list(names) + list(asked) for ch in n):
+        yield "names:non-ascii"
+
+
 def classify(case, obs):
     yield case["op"]
+    if case["op"] == "session":
+        asked = [c for st in case["steps"] for _, c in st.get("reqs", [])] + [k for st in case["steps"] for k in st.get("keys", [])]
+        seen = set()
+        for f in case["frames"]:
+            for lab in _name_labels(f["names"], asked):
+                if lab not in seen:
+                    seen.add(lab)
+                    yield "session:" + lab
+    else:
+        yield from _name_labels(case["names"], [c for _, c in case.get("reqs", [])] + list(case["keys"]))
+        if case.get("strsub"):
+            yield "names:str-subclass-instances"
+        if any(isinstance(c, list) and c[0] == "I" for r in case["rows"] for c in r):
+            yield "values:int-subclass-instances"
     if case["op"] == "session":
         yield "session:steps=%s" % (len(case["steps"]) if len(case["steps"]) < 8 else "8+")
         yield "session:frames=%d" % len(case["frames"])
@@ -1171,6 +1229,116 @@ def _random_session(rng):
     return {"op": "session", "frames": frames, "steps": steps}
 
 
+# ----------------------------------------------------------------------------- column names that are easily taken for one another
+# Each family: names that are different strings (different columns) but coincide under lower(), casefold(), Unicode
+# normalisation (NFC/NFKC), trimming, or are prefixes / brace variants of one another.
+NAME_FAMILIES = [
+    ["v", "V"],
+    ["id", "ID", "Id", "iD"],
+    ["k1", "K1"],
+    ["stra\u00dfe", "strasse", "STRASSE", "STRA\u1e9eE"],      # sharp s, capital sharp s
+    ["\u00df", "ss", "SS"],
+    ["\u212a", "k", "K"],                                     # Kelvin sign
+    ["\u017f", "s", "S"],                                     # long s
+    ["\u03c2", "\u03c3", "\u03a3"],                           # final sigma, sigma, capital sigma
+    ["\u0131", "i", "I", "\u0130"],                           # dotless i, dotted capital I
+    ["\u00e9", "e\u0301", "\u00c9"],                          # e-acute composed / decomposed
+    ["\u00c5", "\u212b", "A\u030a"],                          # A-ring, Angstrom sign, decomposed
+    ["\ufb01", "fi", "FI"],                                   # fi ligature (NFKC, casefold)
+    ["\u00b5", "\u03bc", "\u039c"],                           # micro sign, mu, capital mu
+    ["v", " v", "v ", "v\t"],
+    ["", " ", "\u200b"],
+    ["n", "nn", "n1"],
+    ["{v}", "v}", "{v", "{}"],
+    ["1", "\u0661", "\u00b9"],                                # digit one: ASCII, Arabic-Indic, superscript
+]
+NEUTRAL = {"k1": "c0", "k2": "c1", "v": "c2", "w": "c3", "zz": "c4", "nope": "c5"}
+
+
+def _rename(case, m):
+    r = lambda n: m.get(n, n)
+    if case["op"] == "session":
+        frames = [dict(f, names=[r(n) for n in f["names"]]) for f in case["frames"]]
+        steps = []
+        for st in case["steps"]:
+            st = dict(st)
+            if "keys" in st:
+                st["keys"] = [r(k) for k in st["keys"]]
+            if "reqs" in st:
+                st["reqs"] = [[f, r(c)] for f, c in st["reqs"]]
+            steps.append(st)
+        return dict(case, frames=frames, steps=steps)
+    return dict(case, names=[r(n) for n in case["names"]], keys=[r(k) for k in case["keys"]],
+                reqs=[[f, r(c)] for f, c in case["reqs"]])
+
+
+def _confusable_mapping(rng):
+    """role -> name: 2-4 roles take names of one family (at least one of them a column the frame has; `zz` / `nope`
+    are the requested-but-absent column and the absent key column), the others neutral names"""
+    fam = list(rng.choice(NAME_FAMILIES))
+    rng.shuffle(fam)
+    n = rng.randint(2, min(len(fam), 4))
+    first = rng.choice(["v", "v", "w", "k1", "k1", "k2"])
+    others = [x for x in ["k1", "k2", "v", "v", "w", "w", "zz", "nope"] if x != first]
+    roles = [first]
+    while len(roles) < n:
+        x = rng.choice(others)
+        if x not in roles:
+            roles.append(x)
+    m = dict(NEUTRAL)
+    for role, name in zip(roles, fam):
+        m[role] = name
+    return m
+
+
+def _with_intsub(rng, case):
+    """some integer value cells become int-subclass instances (equal values, another type)"""
+    rows = [list(r) for r in case["rows"]]
+    for r in rows:
+        for j in (2, 3):
+            if isinstance(r[j], int) and not isinstance(r[j], bool) and rng.random() < 0.3:
+                r[j] = ["I", r[j]]
+    return dict(case, rows=rows)
+
+
+def _random_named_case(rng):
+    case = _random_case(rng, malformed_share=0.12)
+    if rng.random() < 0.3:
+        case = _with_intsub(rng, case)
+    case = _rename(case, _confusable_mapping(rng))
+    case["strsub"] = rng.random() < 0.25
+    return case
+
+
+def _random_named_session(rng):
+    return _rename(_random_session(rng), _confusable_mapping(rng))
+
+
+def _name_table(tier):
+    """every pair of names of every family as sibling columns / as present and absent column"""
+    idx = 0
+    for fam in NAME_FAMILIES:
+        for a in fam:
+            for b in fam:
+                if a == b:
+                    continue
+                idx += 1
+                lazy = bool(idx % 2)
+                build = "dicts" if idx % 3 == 0 else "rows"
+                if a < b:
+                    # two value columns
+                    yield _case([["x", 1, 100], ["x", 2, None], ["y", None, 300], ["y", 4, 400]], ["c0"],
+                                [["SUM", a], ["SUM", b], ["COUNT", a], ["MAX", b]], names=["c0", a, b], lazy=lazy, build=build)
+                # a is the key, b a sibling column that partitions the rows differently
+                yield _case([[1, "p", 10], [1, "q", 20], [2, "p", 30]], [a], [["SUM", "c2"], ["COUNT", "*"]],
+                            names=[a, b, "c2"], lazy=lazy, build=build, keyform=("str", "list", "tuple")[idx % 3])
+                # the frame has a only; b is requested (an absent column: COUNT = group size) and, thorough tier, used as key
+                yield _case([["x", 1], ["x", None], ["y", 3]], ["c0"], [["COUNT", b], ["SUM", a], ["COUNT", a]],
+                            names=["c0", a], lazy=lazy, build=build)
+                if tier != "quick" or idx % 4 == 0:
+                    yield _case([["x", 1], ["y", 3]], [b], [["SUM", "c1"]], names=[a, "c1"], lazy=lazy)
+
+
 def _exhaustive_sessions(tier):
     """one GroupBy object asked twice with one row appended in between, every small frame and every row"""
     kvals = [-1, -2]
@@ -1203,12 +1371,16 @@ def exhaustive(tier):
                     for i, rq in enumerate(reqsets):
                         yield _case(rows, ["k1"], rq, lazy=bool((n + i) % 2))
         yield from _exhaustive_sessions(tier)
+        yield from _name_table(tier)
 
     srows = 1 if tier == "quick" else 2
     return it(), (f"all frames of 0..{maxrows} rows with key in {{-1, -2, null}} and value in {{null, 1, 2}}, "
                   "requests [SUM(v), COUNT(v)] and [AVG(v), MIN(v), MAX(v), COUNT(*)]; all sessions "
                   f"group_by / aggregate / append one row / aggregate on the same object / groups over frames of 0..{srows} rows "
-                  "with key in {-1, -2}, value in {null, 1}, any such row appended, four request pairs over the same columns")
+                  "with key in {-1, -2}, value in {null, 1}, any such row appended, four request pairs over the same columns; "
+                  f"every ordered pair of names of each of the {len(NAME_FAMILIES)} families of look-alike column names (case, case "
+                  "folding, Unicode normalisation, trimming, prefixes, braces) as two value columns, as key column and sibling, "
+                  "and as present / absent column")
 
 
 def generate(rng, tier):
@@ -1217,12 +1389,18 @@ def generate(rng, tier):
         yield _random_case(rng)
     for _ in range(260 if tier == "quick" else 5200):
         yield _random_session(rng)
+    for _ in range(200 if tier == "quick" else 4000):
+        yield _random_named_case(rng)
+    for _ in range(60 if tier == "quick" else 1200):
+        yield _random_named_session(rng)
 
 
 def search(rng):
     while True:
         yield _random_case(rng, malformed_share=0.0)
         yield _random_session(rng)
+        yield _random_named_case(rng)
+        yield _random_named_session(rng)
 
 
 def _shrink_session(case):
@@ -1287,9 +1465,11 @@ def shrink(case):
         yield dict(case, keyform="list")
     if case["lazy"]:
         yield dict(case, lazy=False)
+    if case.get("strsub"):
+        yield dict(case, strsub=False)
     for i, r in enumerate(rows):
         for j in (1, 3):
-            if r[j] is not None and case["names"][j] not in case["keys"] and all(c != case["names"][j] for _, c in reqs):
+            if j < len(r) and r[j] is not None and case["names"][j] not in case["keys"] and all(c != case["names"][j] for _, c in reqs):
                 nr = [list(x) for x in rows]
                 nr[i][j] = None
                 yield dict(case, rows=nr)
